@@ -3,4 +3,5 @@ pub mod canon_wac;
 pub mod e2;
 pub mod libs;
 pub mod run;
+pub mod witgen;
 pub use run::*;
